@@ -1013,10 +1013,266 @@ def rand_cc_op(rng, side):
     return [t]
 
 
+
+# ----------------------------------------------------------------------------------------------
+# oracle 5: ONE long-lived Response / Request serving interleaved get / set / del of DIFFERENT typed
+# attributes: every answer equals the answer of a brand-new object over the same header list / environ,
+# reads leave the store alone, a write touches only its own header
+# ----------------------------------------------------------------------------------------------
+SHARED_HEADER = {"charset": "content-type", "content_type": "content-type", "content_type_params": "content-type",
+                 "etag": "etag", "etag_strong": "etag"}
+
+
+def obs_value(kind, v):
+    """comparable observation of an attribute value (cache_control: what the object shows)"""
+    if isinstance(v, Err):
+        return v
+    if kind == "cache_control":
+        return ["cc", [[k, w] for k, w in sorted(v.properties.items())], str(v)]
+    if kind == "if_range":
+        return ["ifr", type(v).__name__, str(v) if getattr(v, "date", 1) is not None else None]
+    if kind == "etag_matcher":
+        return ["etm", type(v).__name__, str(v)]
+    return canon(v)
+
+
+def store_of(side, r):
+    if side == "resp":
+        return [list(kv) for kv in r.headerlist]
+    return [r.environ.get(k, ABSENT) for k in WATCH]
+
+
+def fresh_like(side, store):
+    Request, Response = webob()
+    if side == "resp":
+        r = Response()
+        r.headerlist = [tuple(p) for p in store]
+        return r
+    r = Request.blank("/")
+    for k, v in zip(WATCH, store):
+        if v == ABSENT:
+            r.environ.pop(k, None)
+        else:
+            r.environ[k] = v
+    return r
+
+
+def apply_hist_op(side, r, o):
+    t = o[0]
+    tab = table(side)
+    if t == "get":
+        return obs_value(tab[o[1]][1], catch(getattr, r, o[1]))
+    if t == "set":
+        return catch(setattr, r, o[1], dec(o[2]))
+    if t == "del":
+        return catch(delattr, r, o[1])
+    if t == "raw":
+        if side == "resp":
+            r.headerlist.append((o[1], o[2]))
+        else:
+            r.environ[o[1]] = o[2]
+        return None
+    if t == "rawdel":
+        if side == "resp":
+            r.headerlist[:] = [(k, v) for k, v in r.headerlist if k.lower() != o[1].lower()]
+        else:
+            r.environ.pop(o[1], None)
+        return None
+    raise ValueError(o)
+
+
+def o_hist(case):
+    side = case["side"]
+    tab = table(side)
+    with NowHook():
+        r = fresh_like(side, case["init"]) if side == "resp" else fresh_like(side, case["init"])
+        for i, o in enumerate(case["ops"]):
+            before = store_of(side, r)
+            twin = fresh_like(side, before)
+            res = apply_hist_op(side, r, o)
+            res2 = apply_hist_op(side, twin, o)
+            after, after2 = store_of(side, r), store_of(side, twin)
+            where = "step %d %r on the long-lived %s" % (i, o, "Response" if side == "resp" else "Request")
+            if res != res2:
+                return ("stateful:%s:%s:answer-differs" % (side, o[1] if o[0] != "raw" and len(o) > 1 else "raw"), "%s gives %r, a fresh object over the same %s gives %r"
+                        % (where, res, "header list" if side == "resp" else "environ", res2))
+            if o[0] != "raw" and len(o) > 1 and tab.get(o[1], ("", ""))[1] == "cache_control":
+                # reading cache_control may re-write the header in canonical form (and so move the line to the end
+                # of a Response header list); an object that already did so need not do it again: compare the
+                # stores up to that line, the directives are compared through `res`
+                if side == "resp":
+                    after = [kv for kv in after if kv[0].lower() != "cache-control"]
+                    after2 = [kv for kv in after2 if kv[0].lower() != "cache-control"]
+                else:
+                    j = WATCH.index("HTTP_CACHE_CONTROL")
+                    after = after[:j] + after[j + 1:]
+                    after2 = after2[:j] + after2[j + 1:]
+            if after != after2:
+                return ("stateful:%s:store-differs" % side, "%s leaves %r, on a fresh object it leaves %r" % (where, after, after2))
+            if o[0] in ("get", "set", "del"):
+                key, kind = tab[o[1]]
+                own = SHARED_HEADER.get(o[1], key.lower()) if side == "resp" else key
+                if o[0] == "get" and kind != "cache_control" and after != before:
+                    return ("stateful:%s:read-writes" % side, "%s changed the store from %r to %r" % (where, before, after))
+                if side == "resp":
+                    keep = lambda st: [kv for kv in st if kv[0].lower() != own]  # noqa
+                    if keep(before) != keep(store_of(side, r)):
+                        return ("stateful:resp:other-headers-disturbed", "%s changed other header lines: %r -> %r"
+                                % (where, keep(before), keep(after)))
+                else:
+                    idx = [j for j, k in enumerate(WATCH) if k != own]
+                    now_ = store_of(side, r)
+                    if [before[j] for j in idx] != [now_[j] for j in idx]:
+                        return ("stateful:req:other-keys-disturbed", "%s changed other environ keys" % where)
+    return None
+
+
+def hist_value(rng, kind):
+    vals = HIST_VALUES.get(kind)
+    if vals is None:
+        if kind in ("date", "date_delta", "if_range"):
+            vals = [v for v in date_values(rng, 40, [1970, 2024, 9999]) if v["t"] in ("dt", "date")]
+            if kind == "date":
+                vals += [{"t": "int", "v": 86400 * 366}, {"t": "td", "v": 60}]
+            if kind == "date_delta":
+                vals += [{"t": "int", "v": 120}]
+            if kind == "if_range":
+                vals += [{"t": "str", "v": '"abc"'}]
+        elif kind in ("etag_matcher", "etag_strong", "req_charset"):
+            vals = []
+        elif kind == "cache_control":
+            vals = [{"t": "str", "v": "max-age=5"}, {"t": "dict", "v": {"max-age": 7, "no-cache": None}}, {"t": "str", "v": "public, x=\"a b\""}]
+        else:
+            vals = valid_values(kind, rng, 12, 3)
+            vals += [{"t": "str", "v": "a\nb"}]
+        HIST_VALUES[kind] = vals
+    return rng.choice(vals) if vals else None
+
+
+HIST_VALUES = {}
+
+
+def gen_mixed_history(rng, side, length):
+    """init store with several (also duplicate / differently spelled) header lines, then a long interleaving"""
+    tab = table(side)
+    attrs = sorted(tab)
+    init = []
+    if side == "resp":
+        for _ in range(rng.randrange(0, 6)):
+            a = rng.choice(attrs)
+            key, kind = tab[a]
+            texts = total_texts(kind, 1, rng, 0)
+            init.append([case_variants(rng, key), rng.choice(texts)[:80]])
+    else:
+        init = [ABSENT] * len(WATCH)
+        for _ in range(rng.randrange(0, 6)):
+            a = rng.choice(attrs)
+            key, kind = tab[a]
+            init[WATCH.index(key)] = rng.choice(total_texts(kind, 1, rng, 0))[:80]
+        init[WATCH.index("SERVER_PORT")] = rng.choice(["80", "8080", "abc"])
+    ops = []
+    for _ in range(length):
+        a = rng.choice(attrs)
+        key, kind = tab[a]
+        c = rng.random()
+        if c < 0.45:
+            ops.append(["get", a])
+        elif c < 0.7 and (side, a) not in GET_ONLY:
+            v = hist_value(rng, kind)
+            if v is not None:
+                ops.append(["set", a, v])
+        elif c < 0.78 and (side, a) not in GET_ONLY and a != "server_port":
+            ops.append(["set", a, {"t": "none"}])
+        elif c < 0.84 and (side, a) not in GET_ONLY and a != "server_port":
+            ops.append(["del", a])
+        elif c < 0.96:
+            texts = SPECIAL.get(kind if kind in SPECIAL else KIND_ALPHA.get(kind, "str"), ["x"])
+            ops.append(["raw", case_variants(rng, key) if side == "resp" else key, rng.choice([t for t in texts if len(t) < 200] or ["x"])])
+        elif a != "server_port":
+            ops.append(["rawdel", key])
+    return {"o": "hist", "side": side, "init": init, "ops": ops}
+
+
+def perm_worker():
+    """stdin: {items, order}: evaluate the reads in that order in THIS fresh process; stdout: answers by item index"""
+    cfg = json.load(sys.stdin)
+    items = cfg["items"]
+    out = {}
+    for j in cfg["order"]:
+        it = items[j]
+        r = mk(it[0], table(it[0])[it[1]][0], it[2])
+        with NowHook():
+            out[j] = fw.jsonable(obs_value(table(it[0])[it[1]][1], catch(getattr, r, it[1])))
+    print(json.dumps([out[j] for j in range(len(items))]))
+
+
+def o_perm(case):
+    """module-level state: the same (attribute, text) reads asked in two different orders, each order in a fresh
+    process of its own (a memo filled by one pass would otherwise answer the other pass consistently)"""
+    items = case["items"]
+    res = []
+    for order in (list(range(len(items))), case["order"]):
+        p = subprocess.run([sys.executable, "-B", "-c", "from harness.props import c12; c12.perm_worker()"],
+                           input=json.dumps({"items": items, "order": order}), capture_output=True, text=True,
+                           env=dict(os.environ), cwd=fw.ROOT)
+        if p.returncode != 0:
+            return ("stateful:module:worker", "order worker failed: " + p.stderr[-300:])
+        res.append(json.loads(p.stdout.strip().split("\n")[-1]))
+    for j, it in enumerate(items):
+        if res[0][j] != res[1][j]:
+            return ("stateful:module:order-dependent", "%s.%s on %r gives %r when asked in list order but %r when asked as number %d"
+                    % (it[0], it[1], it[2], res[0][j], res[1][j], case["order"].index(j)))
+    return None
+
+
+def stateful_sweep(ctx):
+    rng = ctx.sub_rng("oracle-stateful")
+    n = ctx.scale(2500, 30000)
+    for side in ("resp", "req"):
+        for _ in range(n):
+            case = gen_mixed_history(rng, side, rng.randrange(8, ctx.scale(40, 80)))
+            report(ctx, o_hist(case), case, "stateful")
+        ctx.oracle_count("stateful-" + side, n, n)
+    m = ctx.scale(6, 40)
+    nitems = 0
+    for _ in range(m):
+        items = []
+        for _ in range(ctx.scale(150, 400)):
+            side = rng.choice(["resp", "req"])
+            a = rng.choice(sorted(table(side)))
+            if side == "req" and a == "server_port":
+                continue
+            kind = table(side)[a][1]
+            texts = SPECIAL.get(kind if kind in SPECIAL else KIND_ALPHA.get(kind, "str"), ["x"])
+            t = rng.choice([t for t in texts if 0 < len(t) < 300] or ["x"])
+            items.append([side, a, t])
+            c = rng.random()
+            # near-duplicates, for caches keyed on too little
+            if t.endswith("GMT") and c < 0.5:
+                items.append([side, a, t[:-3] + rng.choice(["+0500", "-0800", "EST", "+0001"])])
+            elif c < 0.2:
+                items.append([side, a, t[:-1] + "x"])
+            elif c < 0.35:
+                items.append([side, a, "x" + t[1:]])
+            elif c < 0.5:
+                pos = [i for i, ch in enumerate(t) if ch in "0123456789"]
+                if pos:
+                    i = rng.choice(pos)
+                    items.append([side, a, t[:i] + str((int(t[i]) + 1 + rng.randrange(8)) % 10) + t[i + 1:]])
+            elif c < 0.6:
+                items.append([rng.choice(["resp", "req"]), a, t] if a in RESP and a in REQ else [side, a, t + " "])
+        order = list(range(len(items)))
+        rng.shuffle(order)
+        nitems += len(items)
+        case = {"o": "perm", "items": items, "order": order}
+        report(ctx, o_perm(case), case, "stateful")
+    m = nitems
+    ctx.oracle_count("stateful-order", m, m)
+
 # ----------------------------------------------------------------------------------------------
 # dispatch, TZ workers, replay
 # ----------------------------------------------------------------------------------------------
-ORACLES = {"total": o_total, "rt": o_rt, "crlf": o_crlf, "cc": o_cc, "dtext": o_dtext}
+ORACLES = {"total": o_total, "rt": o_rt, "crlf": o_crlf, "cc": o_cc, "dtext": o_dtext, "hist": o_hist, "perm": o_perm}
 
 
 def run_case(case):
@@ -2062,6 +2318,50 @@ def corr_group5(ctx):
         disagreement(ctx, "req-attrs-5", cases[i][2], derived_checks("req", cases[i][2]["ops"]))
 
 
+def corr_mix(ctx):
+    """model counterpart of the stateful oracle: ONE header list / environ driven through long interleavings of
+    ALL modelled attributes (the models are pure functions of the store, so this checks that the code is too);
+    Response histories start from lists with several, also duplicate and differently spelled, lines"""
+    rng = ctx.sub_rng("corr-mix")
+    rattrs = ["allow", "vary", "content_language", "content_length", "age", "content_encoding", "content_location", "content_md5",
+              "content_disposition", "accept_ranges", "location", "pragma", "server", "content_range", "date", "expires",
+              "last_modified", "retry_after", "www_authenticate"]
+    qattrs = ["max_forwards", "content_length", "server_port", "pragma", "referer", "user_agent", "range", "date",
+              "if_modified_since", "if_unmodified_since", "authorization"]
+    n = ctx.scale(250, 3000)
+    cases = []
+    for _ in range(n):
+        _, ops = gen_history(rng, "resp", rattrs, ctx.scale(14, 30))
+        init = []
+        for _ in range(rng.randrange(0, 5)):
+            a = rng.choice(rattrs)
+            key, kind = RESP[a]
+            init.append((case_variants(rng, key), rng.choice(GEN_TEXTS[kind])))
+        out = run_history("resp", init, ops)
+        cases.append((cpair(clist(cpair(cstr(k), cstr(v)) for k, v in init) if init else "(@nil (str * str))",
+                            clist(cop("R", o) for o in ops)), out, {"o": "hist", "side": "resp", "init": [list(p) for p in init], "ops": ops}))
+    bad = ctx.corr("resp-attrs-mix", IMPORTS, "(fun c => run_resp %s (fst c) (snd c))" % ccfg(), cases, in_type="(pairs * list (hop rattr))")
+    for i in bad[:5]:
+        disagreement(ctx, "resp-attrs-mix", cases[i][2], [cases[i][2]] + derived_checks("resp", cases[i][2]["ops"]))
+    cases = []
+    watch = clist(cstr(k) for k in WATCH)
+    for _ in range(n):
+        _, ops = gen_history(rng, "req", qattrs, ctx.scale(14, 30))
+        init = [("SERVER_PORT", "80")]
+        for _ in range(rng.randrange(0, 4)):
+            a = rng.choice(qattrs)
+            key, kind = REQ[a]
+            init = [kv for kv in init if kv[0] != key] + [(key, rng.choice(GEN_TEXTS[kind]))]
+        out = run_history("req", init, ops)
+        st = [dict(init).get(k, ABSENT) for k in WATCH]
+        cases.append((cpair(clist(cpair(cstr(k), cstr(v)) for k, v in init), clist(cop("Q", o) for o in ops)), out,
+                      {"o": "hist", "side": "req", "init": st, "ops": ops}))
+    bad = ctx.corr("req-attrs-mix", IMPORTS, "(fun c => run_req %s %s (fst c) (snd c))" % (ccfg(), watch), cases,
+                   in_type="(pairs * list (hop qattr))")
+    for i in bad[:5]:
+        disagreement(ctx, "req-attrs-mix", cases[i][2], [cases[i][2]] + derived_checks("req", cases[i][2]["ops"]))
+
+
 def run(ctx):
     ctx.build(["Props/C12.vo"])
     table_check(ctx)
@@ -2069,7 +2369,7 @@ def run(ctx):
     prepare_generators(ctx)
     # the correspondences spend their time in coqc subprocesses, the oracle in this process: run them side by side
     # (every part draws from its own ctx.sub_rng stream, so the cases do not depend on the scheduling)
-    parts = [corr_group1, corr_group2, corr_group3, corr_group4, corr_group5, oracle_sweep]
+    parts = [corr_group1, corr_group2, corr_group3, corr_group4, corr_group5, oracle_sweep, stateful_sweep]
     with cf.ThreadPoolExecutor(len(parts)) as ex:
         futs = [(f.__name__, ex.submit(f, ctx)) for f in parts]
         for name, fu in futs:
@@ -2077,6 +2377,10 @@ def run(ctx):
                 fu.result()
             except Exception:  # noqa
                 ctx.broken.append("check machinery raised in %s: %s" % (name, traceback.format_exc()[-1200:]))
+    try:
+        corr_mix(ctx)        # needs the generators of all groups
+    except Exception:  # noqa
+        ctx.broken.append("check machinery raised in corr_mix: %s" % traceback.format_exc()[-1200:])
     ctx.extra["rule"] = ("correspondence: distinct generated inputs (adversarial texts / random attribute histories) per model "
                          "function; oracle totality: every attribute x (hand-picked adversarial texts + every concatenation of "
                          "<= 3-4 tokens of the field's adversarial alphabet + mutated/random longer texts), counted non-trivial "
